@@ -1,7 +1,7 @@
 (* line protocol (strings are space-separated decimal code points; integers are printed in binary, sign first):
    S <cps>                  the split alone (no normalisation) -> agree|sign|int|frac|unit or agree|NONE
    D <olz> <cps>            DimensionValue(token value) -> cssText -> parse again
-        -> agree|NONE   or   agree|sign|int|frac or -|unit|kind num den|T:cps or C:cps|second parse: sign|unit|kind num den or NONE
+        -> agree|NONE   or   agree|REJECT (value overflows binary64: not well-formed)   or   agree|sign|int|frac or -|unit|kind num den|T:cps or C:cps|second parse: sign|unit|kind num den or NONE
    X <num-bits> <den-bits>  dbl_exec (num/den) -> num den
    H <minimize> <cps>       match|rgb or - or CRASH|hash_min cps|rgb of hash_min
    C <cps>                  named colour (name is normalised first) -> r g b num den | NONE
@@ -64,6 +64,7 @@ let () =
          let agree = if split_agree t then "1" else "0" in
          (match split_num t with
           | None -> print_endline (agree ^ "|NONE")
+          | Some lx when to_value dbl_exec lx = PyInf -> print_endline (agree ^ "|REJECT")
           | Some lx ->
             let v = to_value dbl_exec lx in
             let ser = ser_lex dbl_exec (olz = "1") lx in
@@ -74,6 +75,7 @@ let () =
                   let t2 = normalize_u x in
                   (match split_num t2 with
                    | None -> "NONE"
+                   | Some lx2 when to_value dbl_exec lx2 = PyInf -> "NONE"
                    | Some lx2 -> sign_out lx2.lsign ^ "|" ^ str_out lx2.lunit ^ "|" ^ val_out (to_value dbl_exec lx2))) in
             print_endline (String.concat "|" [agree; sign_out lx.lsign; str_out lx.lint;
                                               (match lx.lfrac with None -> "-" | Some f -> str_out f);
